@@ -53,7 +53,7 @@ ASSUMPTIONS = ['natural alignment rule for the glue struct (plain members only)'
                'ABI out-of-line modules are never dlopen()ed: only types and integer constants are compared',
                'wchar_t results/globals that hold no code point are left out']
 BUDGET = {'quick': 400, 'thorough': 24000}
-TIME = {'quick': 25, 'thorough': 840}
+TIME = {'quick': 20, 'thorough': 840}
 MIN_PER_SHARD = 10
 API_ONE_IN = {'quick': 8, 'thorough': 10}
 KNOWN_ENUM = 'included-enum-recreated'
